@@ -131,7 +131,7 @@ def _run(events: list) -> bool:
                     continue
             fc.before_event(ev)
             if not s.apply(ev):
-                return True
+                return track.pruned()  # event not enabled here
             fc.after_event(ev)
         if s.pending_evs:
             fc.before_chunk(s.pending_evs)
